@@ -82,3 +82,14 @@ pub fn init_logger_from_env() {
         }
     }
 }
+
+/// Panic hook for engines that catch the panics of the code under test: silent by default (thousands of caught
+/// panics would flood the logs), one line per panic with VERIF_PANIC_TRACE=1 (to find a panic that was NOT caught)
+pub fn quiet_panics() {
+    let trace = std::env::var("VERIF_PANIC_TRACE").is_ok();
+    std::panic::set_hook(Box::new(move |info| {
+        if trace {
+            eprintln!("panic: {}", info);
+        }
+    }));
+}
